@@ -80,8 +80,12 @@ class Ctx:
         yield getattr(m, fname)(a)
       return
     futs = [self.pool().submit(_call, self._modname, fname, a) for a in args]
-    for f in futs:
-      yield f.result()
+    try:
+      for f in futs:
+        yield f.result()
+    finally:
+      for f in futs:
+        f.cancel()
 
   def close(self):
     if self._pool is not None:
@@ -100,6 +104,9 @@ def main(argv=None):
   ap.add_argument('--budget-s', type=float, default=None)
   ap.add_argument('--workers', type=int, default=int(os.environ.get('VERIF_WORKERS', '0')) or min(16, os.cpu_count() or 1))
   a = ap.parse_args(argv)
+  if a.budget_s is None:
+    # default wall-clock budgets; a driver that runs out stops between (or inside) complete bound levels and says so
+    a.budget_s = float(os.environ.get('VERIF_BUDGET_S', '0')) or (240.0 if a.tier == 'quick' else 2400.0)
   pid = a.pid.upper()
   os.environ.setdefault('PYTHONHASHSEED', '0')
   os.environ['VERIF_TIER'] = a.tier
